@@ -71,7 +71,7 @@ class Check:
         self.build = os.path.join(BUILD, "%s.%d" % (self.build_name, os.getpid()))
         try:
             for d in glob.glob(os.path.join(BUILD, self.build_name + ".*")):
-                if os.path.isdir(d) and time.time() - os.path.getmtime(d) > 7200:
+                if os.path.isdir(d) and time.time() - os.path.getmtime(d) > 1800:
                     shutil.rmtree(d, ignore_errors=True)
         except OSError:
             pass
@@ -437,7 +437,9 @@ class Check:
         self.log.close()
         try:
             shutil.copy(os.path.join(self.build, "check.log"), os.path.join(BUILD, self.build_name + ".last.log"))
-            if not nviol and not os.environ.get("VERIF_KEEP_BUILD"):
+            # the replay file holds the failing case; the scratch directory (binaries, case files: up to
+            # hundreds of MB) is kept only on request, otherwise mutation sweeps fill the disk
+            if not os.environ.get("VERIF_KEEP_BUILD"):
                 shutil.rmtree(self.build, ignore_errors=True)
         except OSError:
             pass
